@@ -324,7 +324,16 @@ func runOverlayTest(repo, pkgDir, src, verif string) (string, error) {
 }
 
 // runScenarios runs the helper package's scenario runner for the given obligations.
+// runPropertyScenarios runs every scenario registered for the property once (thorough tier).
+func runPropertyScenarios(repo, verif, prop string) (string, bool) {
+	return runScenariosEnv(repo, verif, "VERIF_SCENARIO_PROP="+prop, "300s")
+}
+
 func runScenarios(repo, verif string, obligations []string) (string, bool) {
+	return runScenariosEnv(repo, verif, "VERIF_OBLIGATIONS="+strings.Join(obligations, "\n"), "120s")
+}
+
+func runScenariosEnv(repo, verif string, env string, timeout string) (string, bool) {
 	helpers, _ := filepath.Glob(filepath.Join(verif, "replays", "helpers", "interp_*_test.go"))
 	if len(helpers) == 0 {
 		return "", false
@@ -341,9 +350,9 @@ func runScenarios(repo, verif string, obligations []string) (string, bool) {
 	data, _ := json.Marshal(ov)
 	ovFile := filepath.Join(tmp, "overlay.json")
 	os.WriteFile(ovFile, data, 0o644)
-	cmd := exec.Command("go", "test", "-overlay", ovFile, "-vet=off", "-count=1", "-timeout", "120s", "-run", "TestZZVerifScenario$", "-v", "./interp/")
+	cmd := exec.Command("go", "test", "-overlay", ovFile, "-vet=off", "-count=1", "-timeout", timeout, "-run", "TestZZVerifScenario$", "-v", "./interp/")
 	cmd.Dir = repo
-	cmd.Env = append(os.Environ(), "GOFLAGS=-mod=mod", "GOPROXY=off", "GOSUMDB=off", "GOTOOLCHAIN=local", "VERIF_OBLIGATIONS="+strings.Join(obligations, "\n"))
+	cmd.Env = append(os.Environ(), "GOFLAGS=-mod=mod", "GOPROXY=off", "GOSUMDB=off", "GOTOOLCHAIN=local", env)
 	var out bytes.Buffer
 	cmd.Stdout = &out
 	cmd.Stderr = &out
